@@ -43,6 +43,33 @@ func (vc *VC) call(st *State, fr *Frame, x *ssa.Call, k func(*State, *Frame)) {
 		return
 	}
 	if callee := c.StaticCallee(); callee != nil {
+		if fr.top && st.ctx != nil && st.ctx.blk != nil {
+			for i, ac := range st.ctx.blk.AtClosure {
+				if ac.Callee == "" || ac.Callee != callee.Name() {
+					continue
+				}
+				env := vc.localsEnv(st, fr)
+				for k, a := range args {
+					if k < len(callee.Params) {
+						env.bind(fmt.Sprintf("arg%d", k), a, callee.Params[k].Type())
+					}
+				}
+				t, err := vc.evalClause(st.ctx, st, st.ctx.old, ac.Clause.Text, env)
+				if err != nil {
+					if strings.Contains(err.Error(), "unknown name") {
+						continue // the clause speaks about locals that do not exist on this path
+					}
+					vc.fail(fmt.Errorf("%s:%d: %v", ac.Clause.File, ac.Clause.Line, err))
+					return
+				}
+				if vc.atUsed == nil {
+					vc.atUsed = map[string]int{}
+				}
+				vc.atUsed[ac.Clause.Text]++
+				cl := ac.Clause
+				vc.oblige(st, "at-call."+callee.Name(), labelOr(cl.Label, i+1), t.S, &cl, site)
+			}
+		}
 		var bindings []T
 		if mc, ok := c.Value.(*ssa.MakeClosure); ok {
 			for _, b := range mc.Bindings {
@@ -56,6 +83,31 @@ func (vc *VC) call(st *State, fr *Frame, x *ssa.Call, k func(*State, *Frame)) {
 	if ci, ok := fr.closures[c.Value]; ok {
 		vc.inline(st, fr, ci.fn, args, ci.bindings, cont)
 		return
+	}
+	if fr.top && st.ctx != nil && st.ctx.blk != nil {
+		for i, ac := range st.ctx.blk.AtClosure {
+			if ac.Callee != "dyn" {
+				continue
+			}
+			env := vc.localsEnv(st, fr)
+			for k, a := range args {
+				env.bind(fmt.Sprintf("arg%d", k), a, c.Args[k].Type())
+			}
+			t, err := vc.evalClause(st.ctx, st, st.ctx.old, ac.Clause.Text, env)
+			if err != nil {
+				if strings.Contains(err.Error(), "unknown name") {
+					continue
+				}
+				vc.fail(fmt.Errorf("%s:%d: %v", ac.Clause.File, ac.Clause.Line, err))
+				return
+			}
+			if vc.atUsed == nil {
+				vc.atUsed = map[string]int{}
+			}
+			vc.atUsed[ac.Clause.Text]++
+			cl := ac.Clause
+			vc.oblige(st, "at-call.dyn", labelOr(cl.Label, i+1), t.S, &cl, site)
+		}
 	}
 	fv := vc.val(st, fr, c.Value)
 	vc.check(st, vc.nonnil(st, fv.S), "nil", site)
@@ -281,7 +333,11 @@ func (vc *VC) dynCall(st *State, fr *Frame, x *ssa.Call, fv T, args []T, cont fu
 	st.callsN = app("+", st.callsN, "1")
 	preCall := st.clone()
 	defer func() {}()
-	if keep := vc.keepPrefix(st); keep != "" {
+	if blk.HasUse("dyncalls-pure") || (blk.Parent != nil && blk.Parent.HasUse("dyncalls-pure")) {
+		// assumption (listed): the function values called here are pure
+		vc.note("assumed: the function values called dynamically in this function have no effect on the heap (dyncalls-pure)")
+		vc.bumpMark(st)
+	} else if keep := vc.keepPrefix(st); keep != "" {
 		// assumption (listed in the evidence): a function value cannot
 		// change the unexported state of this package (it has no access
 		// to it; thunks go through call0, whose contract restores it)
@@ -714,6 +770,7 @@ func (vc *VC) assumeCond(st *State, f string) {
 		return
 	}
 	f = vc.strengthen(f)
+	st.align()
 	st.assumes = append(st.assumes, f)
 	st.conds = append(st.conds, true)
 	vc.learn(st, f, true)
@@ -735,17 +792,20 @@ func (vc *VC) modTargets(blk *Block, pkg *types.Package, env *Env, pre *State) (
 		star := false
 		text := m
 		if strings.HasPrefix(text, "allmaps(") && strings.HasSuffix(text, ")") {
-			// every map of the static type of the expression
+			// every map of the static type of the expression (or of the named type)
 			e, err := parser.ParseExpr(text[len("allmaps(") : len(text)-1])
 			if err != nil {
 				return nil, fmt.Errorf("%s:%d: modifies %q: %v", blk.File, blk.Line, m, err)
 			}
 			ec := &evalCtx{vc: vc, now: pre, old: pre, pkg: pkg, env: env, fn: vc.fn}
-			vc.noFacts++
-			_, t, err := ec.eval(e)
-			vc.noFacts--
-			if err != nil {
-				return nil, fmt.Errorf("%s:%d: modifies %q: %v", blk.File, blk.Line, m, err)
+			t, terr := ec.typeExpr(e)
+			if terr != nil {
+				vc.noFacts++
+				_, t, err = ec.eval(e)
+				vc.noFacts--
+				if err != nil {
+					return nil, fmt.Errorf("%s:%d: modifies %q: %v", blk.File, blk.Line, m, err)
+				}
 			}
 			if _, ok := t.Underlying().(*types.Map); !ok {
 				return nil, fmt.Errorf("%s:%d: modifies %q: not a map", blk.File, blk.Line, m)
@@ -931,6 +991,7 @@ func (vc *VC) pureCall(st *State, fn *ssa.Function, args []T) (T, error) {
 	var outs []out
 	vc.pure++
 	defer func() { vc.pure-- }()
+	st.align()
 	st2 := st.clone()
 	base := len(st2.assumes)
 	nf := &Frame{fn: fn, vals: map[ssa.Value]T{}, closures: map[ssa.Value]*closureInfo{}, depth: 1}
@@ -963,6 +1024,10 @@ func (vc *VC) pureCall(st *State, fn *ssa.Function, args []T) (T, error) {
 			if !seen[d] {
 				seen[d] = true
 				st.assumes = append(st.assumes, d)
+				for len(st.conds) < len(st.assumes)-1 {
+					st.conds = append(st.conds, false)
+				}
+				st.conds = append(st.conds, false)
 			}
 		}
 	}
